@@ -3,6 +3,7 @@ CONSTANTS
  NK = 4
  MaxLayer = 2
  MaxH = 2
+ Restore = TRUE
  AsIs = FALSE
 INVARIANTS NoFailure Agrees SeekOK
 CHECK_DEADLOCK FALSE
